@@ -146,7 +146,13 @@ def step (st : St) (line : String) : St × String :=
     (match Json.parse rest with
      | .ok j =>
        let (vars, values, fields) := parseCase st j
-       (st, outcomeStr (runOp st.schema st.cfg vars values fields))
+       let o := runOp st.schema st.cfg vars values fields
+       -- directive invocations (argument / input-field directives), when the operation is executed
+       let dirs : List String :=
+         match o, varValues st.schema vars values with
+         | .ran _, .ok cv => fields.flatMap fun fu => fieldDirs st.schema st.cfg cv fu.defs fu.given fu.path
+         | _, _ => []
+       (st, outcomeStr o ++ "\tdirs\x1f" ++ "\x1f".intercalate dirs)
      | .error e => (st, "bad-json " ++ e))
   | "spec" =>
     -- spec <devs> <json>: devs = comma-separated deviation switches, "-" = none (the specification), "all"
